@@ -99,6 +99,7 @@ func runC07(c *Ctx) {
 	wsContract(c, "C07.R5")
 	c07DialReleased(c)
 	c07Spliced(c)
+	c07MuxConfig(c)
 	c.floor("C07.R1", 4)
 	nPairs := 0
 	for _, fn := range p.ModFuncs {
@@ -1404,4 +1405,72 @@ func c07Spliced(c *Ctx) {
 		bad = "after a successful upgrade a path ends at " + p.pos(pa.end.Pos()) + " without starting the copy pair on (dialled upstream, upgraded downstream)"
 	}
 	c.check(bad == "", "C07.R7", fnName(fn)+"/legs-are-spliced", upg.Pos(), "forward(dialled upstream conn, New(upgraded conn)) on every path after a successful upgrade", bad+": the tunnel is established but carries no bytes")
+}
+
+// c07MuxConfig (C07.R8): the multiplexer's StreamCloseTimeout is not shortened.
+// After one side has closed a stream, yamux resets it when this timer fires,
+// and a reset discards the bytes the other side has received but not yet read.
+// The library default is the bound the property already lives with; a module
+// store of a smaller constant (or of a non-constant) cuts slow readers short.
+func c07MuxConfig(c *Ctx) {
+	p := c.P
+	var def *ssa.Function
+	for f := range ssautilAll(p) {
+		if f.Name() == "DefaultConfig" && f.Pkg != nil && strings.HasSuffix(f.Pkg.Pkg.Path(), "/yamux") {
+			def = f
+		}
+	}
+	var defVal int64 = -1
+	if def != nil {
+		allInstrs(def, func(i ssa.Instruction) {
+			if st, ok := i.(*ssa.Store); ok {
+				if fa, ok := st.Addr.(*ssa.FieldAddr); ok {
+					if fv, _ := fieldVarOf(fa); fv != nil && fv.Name() == "StreamCloseTimeout" {
+						if k, ok := constInt(st.Val); ok {
+							defVal = k
+						}
+					}
+				}
+			}
+		})
+	}
+	if defVal < 0 {
+		c.undecided("C07.R8", "yamux.DefaultConfig/StreamCloseTimeout", token.NoPos, "the library default could not be read from yamux.DefaultConfig")
+		return
+	}
+	c.ok("C07.R8", "yamux.DefaultConfig/StreamCloseTimeout", def.Pos(), fmt.Sprintf("library default %d ns", defVal))
+	for _, fn := range p.ModFuncs {
+		if isTestFile(p.Fset, fn.Pos()) {
+			continue
+		}
+		allInstrs(fn, func(i ssa.Instruction) {
+			st, ok := i.(*ssa.Store)
+			if !ok {
+				return
+			}
+			fa, ok := st.Addr.(*ssa.FieldAddr)
+			if !ok {
+				return
+			}
+			fv, _ := fieldVarOf(fa)
+			if fv == nil || fv.Name() != "StreamCloseTimeout" || fv.Pkg() == nil || !strings.HasSuffix(fv.Pkg().Path(), "/yamux") {
+				return
+			}
+			k, isK := constInt(st.Val)
+			c.check(isK && k >= defVal, "C07.R8", fnName(fn)+"/StreamCloseTimeout", st.Pos(), "not below the library default",
+				fmt.Sprintf("yamux StreamCloseTimeout is set below the library default (%d ns) or to a non-constant: a stream closed by one side is reset after that time and the bytes its peer has received but not yet read are discarded", defVal))
+		})
+	}
+}
+
+func ssautilAll(p *Prog) map[*ssa.Function]bool {
+	out := map[*ssa.Function]bool{}
+	for _, pk := range p.SSA.AllPackages() {
+		for _, m := range pk.Members {
+			if f, ok := m.(*ssa.Function); ok {
+				out[f] = true
+			}
+		}
+	}
+	return out
 }
